@@ -42,25 +42,34 @@ Example fold_agrees_int_ex :
   eval_bin true OEq (VInt (-1)) (VNat 4294967295) = Ok (Some (VBool false)).
 Proof. repeat split; reflexivity. Qed.
 
-(** Full statement for Float operands (NOT proved in this generality):
+(** Full statement (NOT proved in this generality):
       forall debug op a b v, wf_value a = true -> wf_value b = true -> Known_C04 op a b = false ->
         eval_bin debug op a b = Ok (Some v) -> exists v', py_eval op (to_py a) (to_py b) = PyOk v' /\ same_value v v'.
-    Proved below for [float_fragment]: [+ - * / // %] with at least one Float operand and comparisons of two
-    Floats.  Missing: [/] on two integers (model: one IEEE division of the converted operands; Python: the exact
-    quotient rounded once) and comparisons of an integer with a Float (model: through [Z2F] / the exact
-    [cmp_nat_float]; Python: exact) — both need rounding-error lemmas about SpecFloat that are not in Coq's
-    standard library; these cases are carried by the correspondence check and the extracted judge only.
-    Excluded by [Known_C04]: [**] with a Float operand (libm pow, known finding C04-float-pow). *)
-Theorem fold_agrees_float_partial : forall debug op a b v,
-  wf_value a = true -> wf_value b = true -> float_fragment op a b = true ->
+    Proved with the additional guard [By_correspondence_C04 op a b = false], which excludes [/] on two integers
+    (model: one IEEE division of the converted operands; Python: the exact quotient rounded once) and the
+    comparison of an integer with a Float (model: through [Z2F] / the exact [cmp_nat_float]; Python: exact).  Both
+    need rounding-error lemmas about SpecFloat that are not in Coq's standard library; these cases are carried by
+    the correspondence check and the extracted judge only.  So the theorem covers: every operator on Int/Nat/Bool
+    operands except [/]; [+ - * / // %] with a Float operand; comparisons of two Floats.
+    [Known_C04] = [**] with a Float operand (libm pow: known finding C04-float-pow). *)
+Theorem fold_agrees_partial : forall debug op a b v,
+  wf_value a = true -> wf_value b = true -> Known_C04 op a b = false -> By_correspondence_C04 op a b = false ->
   eval_bin debug op a b = Ok (Some v) ->
   exists v', py_eval op (to_py a) (to_py b) = PyOk v' /\ same_value v v'.
-Proof. exact eval_bin_agrees_float. Qed.
-Example fold_agrees_float_ex :
-  float_fragment OAdd (VFloat (F_div (Z2F 3) (Z2F 2))) (VNat 2) = true /\
+Proof. exact eval_bin_agrees_guarded. Qed.
+Example fold_agrees_partial_ex :
+  Known_C04 OAdd (VFloat (F_div (Z2F 3) (Z2F 2))) (VNat 2) = false /\
+  By_correspondence_C04 OAdd (VFloat (F_div (Z2F 3) (Z2F 2))) (VNat 2) = false /\
   eval_bin true OAdd (VFloat (F_div (Z2F 3) (Z2F 2))) (VNat 2) = Ok (Some (VFloat (F_div (Z2F 7) (Z2F 2)))) /\
   eval_bin true OFloorDiv (VFloat (Z2F 1)) (VFloat (F_div (Z2F 1) (Z2F 10))) = Ok (Some (VFloat (Z2F 9))).
 Proof. repeat split; vm_compute; reflexivity. Qed.
+
+(** The known class is not empty and not covered: the model folds [0.0 ** -1.0] to a Float that Spec.v cannot
+    account for (the implementation folds it to inf; at run time it raises ZeroDivisionError: replayed by the check). *)
+Theorem fold_agrees_known_refuted : exists op a b v,
+  wf_value a = true /\ wf_value b = true /\ Known_C04 op a b = true /\
+  eval_bin true op a b = Ok (Some v) /\ forall v', py_eval op (to_py a) (to_py b) <> PyOk v'.
+Proof. exact known_class_refuted. Qed.
 
 (** Unary operators: every operator, every operand kind (Floats included). *)
 Theorem unary_agrees : forall debug op a v,
